@@ -18,31 +18,54 @@ from .common import cfg_consts
 BASE = dict(CmdSz=2, W=3)
 
 
+MC = "---- MODULE MC_%s ----\nEXTENDS %s\nMCOLog == <<2>>\n====\n"
+
+
+def fcfg(ml, mf, a, b, c, refollow=0, stale="percmd", extra="VIEW View\nINVARIANT CopyWhenCaughtUp NoEarlyCaughtUp LogIsLeaderPrefix\n"):
+    return ("SPECIFICATION Spec\n" + cfg_consts(MaxLeader=ml, MaxFaults=mf, SmallNoCheck=a, ZeroNoReset=b, IntactShortcut=c,
+                                                MaxRefollow=refollow, StaleCheck=stale, OLog="<- MCOLog", **BASE) + extra)
+
+
 def design(ctx):
-    def cfg(ml, mf, a, b, c, extra=""):
-        return ("SPECIFICATION Spec\n" + cfg_consts(MaxLeader=ml, MaxFaults=mf, SmallNoCheck=a, ZeroNoReset=b, IntactShortcut=c, **BASE) +
-                "VIEW View\nINVARIANT CopyWhenCaughtUp NoEarlyCaughtUp LogIsLeaderPrefix\n" + extra)
-    mc = "---- MODULE MC_%s ----\nEXTENDS Follow\n====\n"
-    r = ctx.tlc("fol_intended", ["Follow.tla"], mc % "fol_intended", cfg(ctx.pick(4, 5), ctx.pick(2, 3), False, False, False), timeout=2400)
+    r = ctx.tlc("fol_intended", ["Follow.tla"], MC % ("fol_intended", "Follow"), fcfg(ctx.pick(4, 5), ctx.pick(2, 3), False, False, False), timeout=2400)
     if not r["ok"]:
         raise common.Infra("Follow (intended) violates %s" % r["violated"])
+    # the follower is re-pointed to another leader while the session of the first one is still reading
+    rr = ctx.tlc("fol_refollow", ["Follow.tla"], MC % ("fol_refollow", "Follow"), fcfg(3, ctx.pick(1, 2), False, False, False, refollow=1), timeout=2400)
+    if not rr["ok"]:
+        raise common.Infra("Follow (intended, re-follow) violates %s" % rr["violated"])
+    r["distinct"] += rr["distinct"]
+    r["generated"] += rr["generated"]
     for name, dev in (("fol_small", (True, False, False)), ("fol_zero", (False, True, False)), ("fol_intact", (False, False, True))):
-        r2 = ctx.tlc(name, ["Follow.tla"], mc % name, cfg(4, 1, *dev), timeout=900, expect_violation=True)
+        r2 = ctx.tlc(name, ["Follow.tla"], MC % (name, "Follow"), fcfg(4, 1, *dev), timeout=900, expect_violation=True)
         if r2["violated"] is None:
             raise common.Infra("Follow deviation %s is not detected (vacuous)" % name)
-    ctx.log("TLC Follow: intended design %d states, CopyWhenCaughtUp / NoEarlyCaughtUp / LogIsLeaderPrefix hold; the three historical "
-            "deviations of followCheckSome are refuted" % r["distinct"])
+    r3 = ctx.tlc("fol_stale", ["Follow.tla"], MC % ("fol_stale", "Follow"), fcfg(3, 1, False, False, False, refollow=1, stale="atread"),
+                 timeout=900, expect_violation=True)
+    if r3["violated"] is None:
+        raise common.Infra("Follow deviation StaleCheck=atread is not detected (vacuous)")
+    ctx.log("TLC Follow: intended design %d states (incl. re-follow with a stale session), CopyWhenCaughtUp / NoEarlyCaughtUp / "
+            "LogIsLeaderPrefix hold; the three historical deviations of followCheckSome and the stale-session check before the read "
+            "are refuted" % r["distinct"])
     return r
 
 
 def scenarios(ctx, rng):
-    cfg = ("SPECIFICATION Spec\n" + cfg_consts(MaxLeader=3, MaxFaults=2, SmallNoCheck=False, ZeroNoReset=False, IntactShortcut=False, **BASE) +
-           "VIEW View\nPROPERTY Emit\n")
-    r = ctx.tlc("folgen", ["Follow.tla", "FollowGen.tla"], "---- MODULE MC_folgen ----\nEXTENDS FollowGen\n====\n", cfg, timeout=900)
+    cfg = fcfg(3, 2, False, False, False, extra="VIEW View\nPROPERTY Emit\n")
+    r = ctx.tlc("folgen", ["Follow.tla", "FollowGen.tla"], MC % ("folgen", "FollowGen"), cfg, timeout=900)
     raw = os.path.join(r["dir"], "raw.ndjson")
     ctx.extract_tr(r["out"], raw)
+    os.remove(r["out"])
+    # scenarios with one re-follow (smaller bounds: 2 leader batches, 1 other fault)
+    cfg2 = fcfg(2, 1, False, False, False, refollow=1, extra="VIEW View\nPROPERTY Emit\n")
+    r2 = ctx.tlc("folgen2", ["Follow.tla", "FollowGen.tla"], MC % ("folgen2", "FollowGen"), cfg2, timeout=900)
+    raw2 = os.path.join(r2["dir"], "raw.ndjson")
+    ctx.extract_tr(r2["out"], raw2)
+    os.remove(r2["out"])
+    r["distinct"] += r2["distinct"]
+    r["generated"] += r2["generated"]
     seen = {}
-    for line in open(raw):
+    for line in list(open(raw)) + [l for l in open(raw2) if "refollow" in l]:
         j = json.loads(line)
         key = json.dumps(j, sort_keys=True)
         seen[key] = j
@@ -64,8 +87,9 @@ def run_scenarios(ctx, scs, label):
     rc, js, err = ctx.harness(["follow-run", "-in", f, "-par", "6"], timeout=3300)
     st = js["stats"]
     ctx.log("%s: %d scenarios on real leader/follower pairs: %d leader batches, %d drops, %d follower restarts, %d leader shrinks, "
-            "%d quiescent comparisons, %d mismatches" % (label, st.get("scenarios", 0), st.get("lwrites", 0), st.get("drops", 0),
-            st.get("frestarts", 0), st.get("lshrinks", 0), st.get("syncs", 0), len(js.get("mismatches") or [])))
+            "%d re-follows to a second leader, %d writes on the former leader, %d quiescent comparisons, %d mismatches" % (
+            label, st.get("scenarios", 0), st.get("lwrites", 0), st.get("drops", 0), st.get("frestarts", 0), st.get("lshrinks", 0),
+            st.get("refollows", 0), st.get("owrites", 0), st.get("syncs", 0), len(js.get("mismatches") or [])))
     groups = {}
     for m in js.get("mismatches") or []:
         s = scs[m["scenario"]]
@@ -101,6 +125,8 @@ def run(ctx):
         want(lambda s: "frestart" in s["steps"], 4)
         want(lambda s: "drop" in s["steps"], 4)
         want(lambda s: "lshrink" in s["steps"], 4)
+        want(lambda s: "refollow" in s["steps"] and "owrite" in s["steps"] and s["prefix"] == s["linit"], 3)
+        want(lambda s: "refollow" in s["steps"] and "owrite" in s["steps"], 3)
         want(lambda s: True, 4)
         scs_run = pick
     else:
@@ -111,7 +137,7 @@ def run(ctx):
     common.write_evidence(ctx, "model_checking", {
         "states": d["distinct"] + r["distinct"], "transitions": d["generated"] + r["generated"],
         "traces_validated_against_impl": st.get("scenarios", 0), "scenarios_in_graph": len(scs),
-        "quiescent_comparisons": st.get("syncs", 0), "faults": {k: st.get(k, 0) for k in ("drops", "frestarts", "lshrinks")},
+        "quiescent_comparisons": st.get("syncs", 0), "faults": {k: st.get(k, 0) for k in ("drops", "frestarts", "lshrinks", "refollows", "owrites")},
         "samples": scs_run[:3], "exhaustive": not ctx.quick,
         "explanation": "Design: TLC explores all leader histories (<=4/5 commands incl. a non-idempotent one), initial follower logs "
                        "(prefix + foreign suffix) and fault sequences. Conformance: scenarios from the reachable graph run on real "
